@@ -1048,6 +1048,9 @@ def ringYank : EM (Option Text) := fun s =>
   | .ok (k, t) => .ok (t, { s with ring := k })
   | .error _ => .error (.panic, s)
 
+/-- `KillRing::yank_n n` is `ringYank` followed by this -/
+def ringYankCount (n : Nat) : EM Unit := fun s => .ok ((), { s with ring := s.ring.yankCount n })
+
 def ringYankPop : EM (Option (Nat × Text)) := fun s =>
   match s.ring.yankPop with
   | .ok (k, t) => .ok (t, { s with ring := k })
@@ -1135,7 +1138,7 @@ def execute (cmd : Cmd) : EM Status := do
   | .transposeChars => do grouped S U cfg (LB.transposeChars S U); pure .proceed
   | .yank n anchor => do
     match ← ringYank with
-    | some text => editYank S U cfg text anchor n
+    | some text => do ringYankCount n; editYank S U cfg text anchor n
     | none => pure ()
     pure .proceed
   | .viYankTo mvt => do
